@@ -45,8 +45,8 @@ DECIDES += (' ROUND 4 — (INIT) for 9 field lists x kw_only x __post_init__: re
             'the default statement is removed and recorded; __dataclass_fields__[n].name/.type/._field_type; private attributes are not published. (FROZEN) scope mark "frozen" exactly '
             'for frozen=True; readonly exactly for that mark. (METHODS) every method dataclasses adds for an option can be emitted by some generator. (BODY) + subclass operand -> NotImplemented.')
 NOT_DECIDED += (' ROUND 4 — still not decided: ClassVar, field-level kw_only, how Cython types and compiles the generated source (annotation_typing), the C helper that filters keyword '
-                'arguments for older dataclasses versions. Written but NOT registered (pending findings): C30-MUTDEF (FINDING_2: bytearray default accepted), C30-POSTINIT (FINDING_4: '
-                'inherited __post_init__ not called).')
+                'arguments for older dataclasses versions. Two further rules of this round found genuine defects of the unmodified tree and were armed after the repairs: C30-MUTDEF (FINDING_2, '
+                'repaired in 52deae914: a bytearray default was accepted) and C30-POSTINIT (FINDING_4, repaired in f5dc1bf46: an inherited __post_init__ was not called).')
 MUTANTS_ROUND4 = 'mutants/C30/*: 34 breaking (32 reported, 2 declined) + 9 behaviour-preserving (all silent)'
 
 # No EXEMPT entries here: the V1 entries for RemoveAssignmentsToNames.visit_CClassNode / visit_PyClassNode live in sa/exemptions.py.
